@@ -6,6 +6,7 @@ export VERIF_BUDGET_S=${VERIF_BUDGET_S:-900}   # a loaded machine must not turn 
 for d in seeded/*/; do
   name=$(basename $d)
   checks=$(python3 -c "import json;print(' '.join(json.load(open('$d/meta.json'))['caught_by']))")
+  [ -n "${FIRST_ONLY:-}" ] && checks=$(echo $checks | cut -d' ' -f1)   # FIRST_ONLY=1: only the first recorded check
   out=$(./tools/seed_run_wt.sh $name quick $checks 2>&1)
   miss=$(echo "$out" | grep -c "exit=0 ")
   err=$(echo "$out" | grep -c "exit=2 \|does not apply")
